@@ -116,11 +116,12 @@ impl<R: Read + Send> Iterator for ChunkIter<R> {
         let mut vec = Vec::with_capacity(self.size_hint.min(min_size));
 
         // check if some bytes exist in the buffer and if yes, use them
-        let open_buf_len = self.buf.len() - self.pos;
+        // (never take more than min_size bytes; the remainder stays in the buffer for the hash loop)
+        let open_buf_len = (self.buf.len() - self.pos).min(min_size);
         if open_buf_len > 0 {
             vec.resize(open_buf_len, 0);
-            vec.copy_from_slice(&self.buf[self.pos..]);
-            self.pos = self.buf.len();
+            vec.copy_from_slice(&self.buf[self.pos..self.pos + open_buf_len]);
+            self.pos += open_buf_len;
             min_size -= open_buf_len;
         }
 
@@ -146,9 +147,11 @@ impl<R: Read + Send> Iterator for ChunkIter<R> {
             return if vec.is_empty() { None } else { Some(Ok(vec)) };
         }
 
+        // chunks shorter than the window must not see window content of the previous chunk
+        self.rabin.reset();
         _ = self
             .rabin
-            .reset_and_prefill_window(&mut vec[vec.len() - 64..vec.len()].iter().copied());
+            .prefill_window(&mut vec[vec.len().saturating_sub(64)..vec.len()].iter().copied());
 
         loop {
             if vec.len() >= self.max_size {
